@@ -27,7 +27,11 @@ pub fn op(rng: &mut Rng, depth: usize) -> Term {
         9 => tag("lappend", vec![nm(rng), idx(rng), val(rng)]),
         10 => {
             let n = rng.below(3);
-            let kv: Vec<Term> = (0..n).flat_map(|_| vec![ts(INDICES[rng.below(3)]), ts(VALUES[rng.below(5)])]).collect();
+            let mut kv: Vec<Term> = (0..n).flat_map(|_| vec![ts(INDICES[rng.below(3)]), ts(VALUES[rng.below(5)])]).collect();
+            // one list in five has an odd number of items: an error that must change nothing
+            if rng.chance(1, 5) {
+                kv.push(ts(INDICES[rng.below(3)]));
+            }
             tag("aset", vec![nm(rng), tl(kv)])
         }
         11 => tag("aunset", vec![nm(rng), idx(rng)]),
